@@ -67,7 +67,18 @@ func parsePattern(p string) ([]ptok, error) {
 				}
 				first = false
 				if c == '\\' {
-					return nil, errAbstain // backslash inside a bracket expression: not pinned down
+					// an escaped character inside a bracket expression is a member that
+					// stands for itself (an escaped "-" is never a range operator)
+					if j+1 >= len(rs) {
+						return nil, errMalformed
+					}
+					lit := rs[j+1]
+					if j+2 < len(rs) && rs[j+2] == '-' && j+3 < len(rs) && rs[j+3] != ']' {
+						return nil, errAbstain // an escaped character as the start of a range: not pinned down
+					}
+					t.items = append(t.items, setItem{lo: lit, hi: lit})
+					j += 2
+					continue
 				}
 				if c == '[' {
 					if j+1 < len(rs) && (rs[j+1] == ':' || rs[j+1] == '.' || rs[j+1] == '=') {
@@ -328,14 +339,14 @@ func runMatch(tier string, seed int64) (string, bool) {
 	// bracket expressions, exhaustively: optional negation, up to three members
 	// (a leading "]" is a member; "*", "?" and regexp metacharacters inside a
 	// bracket stand for themselves), alone and followed by a star
-	members := []string{"]", "a", "*", "?", "-", "!", "(", "."}
+	members := []string{"]", "a", "*", "?", "-", "!", "(", ".", "\\-", "\\]", "\\\\", "z"}
 	var sets []string
 	for _, neg := range []string{"", "!", "^"} {
 		for _, ms := range words(members, 3) {
 			sets = append(sets, "["+neg+ms+"]")
 		}
 	}
-	bsub := words([]string{"a", "]", "*", "?", "(", "s", ":", ".", "-", "!", ")"}, 2)
+	bsub := words([]string{"a", "]", "*", "?", "(", "s", ":", ".", "-", "!", ")", "m", "z", "\\"}, 2)
 	parallel(len(sets), func(i int) {
 		for _, tail := range []string{"", "*", "a"} {
 			for _, s := range bsub {
@@ -384,5 +395,5 @@ func runMatch(tier string, seed int64) (string, bool) {
 	}
 	parallel(n, func(i int) { checkMatch([]string{rcs[i].p}, rcs[i].m, rcs[i].s) })
 	addSample(fmt.Sprintf("Match([%q], %d, %q) (random part)", rcs[0].p, rcs[0].m, rcs[0].s))
-	return fmt.Sprintf("exhaustive: single patterns of <= %d symbols over %d, subjects of <= %d over %d, 4 modes; all bracket expressions with optional negation and <= 3 members over {],a,*,?,-,!,(,.} alone and followed by * or a, on subjects <= 2 over 11 symbols; pairs of patterns of <= 2 symbols over {a,b,*,?,|} on subjects <= 3; plus %d seeded random patterns with classes, ranges, multi-byte runes and regexp metacharacters", pl, len(palpha), sl, len(salpha), n), true
+	return fmt.Sprintf("exhaustive: single patterns of <= %d symbols over %d, subjects of <= %d over %d, 4 modes; all bracket expressions with optional negation and <= 3 members over {],a,z,*,?,-,!,(,.,\\\\-,\\\\]} alone and followed by * or a, on subjects <= 2 over 14 symbols; pairs of patterns of <= 2 symbols over {a,b,*,?,|} on subjects <= 3; plus %d seeded random patterns with classes, ranges, multi-byte runes and regexp metacharacters", pl, len(palpha), sl, len(salpha), n), true
 }
